@@ -228,6 +228,7 @@ class Interp:
         self._module_cache: dict = {}
         self.cur_fn: FuncInfo | None = None
         self._yields: list[list] = []
+        self._abstract_loops = 0
 
     # ---------------------------------------------------------------- entry
     def run(self, fn: FuncInfo, args: dict | None = None, self_val=None):
@@ -347,7 +348,11 @@ class Interp:
                 else:
                     new = TOP
                 env = dict(env)
-                if isinstance(cur, Tup) and not cur.items:
+                if isinstance(cur, Tup) and self._abstract_loops == 0 and v.func.attr == "append" and len(cur.items) < 16:
+                    env[name] = Tup(list(cur.items) + [new])
+                elif isinstance(cur, Tup) and self._abstract_loops == 0 and v.func.attr == "extend" and args and isinstance(args[0], Tup) and len(cur.items) < 16:
+                    env[name] = Tup(list(cur.items) + list(args[0].items))
+                elif isinstance(cur, Tup) and not cur.items:
                     env[name] = ListOf(new)
                 else:
                     env[name] = ListOf(self.join(self.elem_of(cur, v), new))
@@ -528,8 +533,47 @@ class Interp:
                 out.extend(self.exec_block(st.orelse, [e2], rets, fn))
         return out
 
+    def items_of(self, val):
+        """Concrete element list when the iterable has a known small length, else None."""
+        if isinstance(val, Tup) and len(val.items) <= 8:
+            return list(val.items)
+        h = getattr(self.domain, "items_of", None)
+        if h is not None and not isinstance(val, (Tup, ListOf, DictV, Obj, Const)) and val is not TOP:
+            out = h(self, val)
+            if out is not None and len(out) <= 8:
+                return out
+        return None
+
     def st_For(self, st, env, rets, fn):
         it = self.eval(st.iter, env, fn)
+        items = self.items_of(it)
+        if items is not None and not st.orelse:
+            states = [dict(env)]
+            exits: list[dict] = []
+            for item in items:
+                nxt: list[dict] = []
+                for e in states:
+                    e = dict(e)
+                    self.assign(st.target, item, e, fn, st)
+                    outs = self.exec_block(st.body, [e], rets, fn)
+                    for o in outs:
+                        o = dict(o)
+                        if o.pop("$break", None):
+                            exits.append(o)
+                        else:
+                            o.pop("$continue", None)
+                            nxt.append(o)
+                states = self._cap(nxt)
+                if not states:
+                    break
+            return self._cap(states + exits)
+        self._abstract_loops += 1
+        try:
+            return self._for_abstract(st, it, env, rets, fn)
+        finally:
+            self._abstract_loops -= 1
+
+    def _for_abstract(self, st, it, env, rets, fn):
         elem = self.elem_of(it, st.iter)
         cur = dict(env)
         exits: list[dict] = []
@@ -558,6 +602,13 @@ class Interp:
         return self._cap_small(res)
 
     def st_While(self, st, env, rets, fn):
+        self._abstract_loops += 1
+        try:
+            return self._while(st, env, rets, fn)
+        finally:
+            self._abstract_loops -= 1
+
+    def _while(self, st, env, rets, fn):
         cur = dict(env)
         exits: list[dict] = []
         for _ in range(self.LOOP_ROUNDS):
@@ -958,9 +1009,10 @@ class Interp:
         if len(node.generators) == 1 and not node.generators[0].ifs:
             g = node.generators[0]
             it = self.eval(g.iter, inner, fn)
-            if isinstance(it, Tup) and 0 < len(it.items) <= 8:
+            its = self.items_of(it)
+            if its is not None and len(its) > 0:
                 outs = []
-                for item in it.items:
+                for item in its:
                     e2 = dict(inner)
                     self.assign(g.target, item, e2, fn, node)
                     outs.append(self.eval(elt, e2, fn))
@@ -1198,17 +1250,23 @@ class Interp:
         name = callee.name
         pargs = _plain(args)
         if name == "builtins.zip":
-            if pargs and all(isinstance(a, Tup) for a in pargs) and len({len(a.items) for a in pargs}) == 1 and len(pargs[0].items) <= 8:
-                n = len(pargs[0].items)
-                return Tup([Tup([a.items[i] for a in pargs]) for i in range(n)])
+            lists = [self.items_of(a) for a in pargs]
+            if pargs and all(l is not None for l in lists):
+                n = min(len(l) for l in lists)
+                if len({len(l) for l in lists}) > 1:
+                    h = getattr(self.domain, "zip_length_mismatch", None)
+                    if h is not None:
+                        h(self, node, [len(l) for l in lists])
+                return Tup([Tup([l[i] for l in lists]) for i in range(n)])
             return ListOf(Tup([self.elem_of(a, node) for a in pargs]), one_shot=True)
         if name == "builtins.enumerate":
             idx = self.domain.const(self, 0, node)
             h = getattr(self.domain, "index_value", None)
             if h is not None:
                 idx = h(self, node)
-            if pargs and isinstance(pargs[0], Tup) and len(pargs[0].items) <= 8:
-                return Tup([Tup([self.domain.const(self, i, node), v]) for i, v in enumerate(pargs[0].items)])
+            its = self.items_of(pargs[0]) if pargs else None
+            if its is not None:
+                return Tup([Tup([self.domain.const(self, i, node), v]) for i, v in enumerate(its)])
             return ListOf(Tup([idx, self.elem_of(pargs[0], node) if pargs else TOP]), one_shot=True)
         if name in ("builtins.list", "builtins.tuple", "builtins.sorted", "builtins.reversed", "builtins.iter", "builtins.set", "builtins.frozenset"):
             if not pargs:
